@@ -7,6 +7,8 @@ CONSTANTS
   AtomicSet = {TRUE}
   TrackLast = FALSE
   UseRoller = TRUE
+  SplitNew = TRUE
+  NewLoads = 1
 INVARIANTS TypeOK C03_Run C03_NoDeath C03_NoLostWakeup C03_Wakeable
 PROPERTIES StepsOK
 CHECK_DEADLOCK FALSE
